@@ -8,6 +8,18 @@ CHECKS = {
    technique="runtime monitoring: math/big reference-model monitor over executions of the real Int operators (exhaustive small square + boundary table + seeded random pairs)",
    text="Every Int operator of the statement is executed on the real interpreter (parsed `a op b` and `Int['op](a,b)`) for the full square [-40,40]², all pairs of a boundary table and seed-determined random 64-bit pairs; each observed result is compared with math/big (bit-exact float64 for `/`). Held-on-observed: exhaustive on the square, sampled elsewhere.",
    note="Trusted: Go math/big and float64 division as the reference; operands are injected as Int values (literal parsing is C17's subject). Results outside int64 are not judged."),
+ "C11": dict(level="exploration", design="§3 C11",
+   technique="runtime monitoring: reference-model monitor (slice rule) + model-free 'nothing invented' monitor over bounded-exhaustive executions of the real indexing code",
+   text="Every (sequence kind, length ≤ N, start, stop, step) of the stated cube (window around the length, nil, int64 extremes; step 0) is executed through `s[r]`/`s[i]` on the real interpreter and compared with the statement's slice rule; independently every returned element must be an element of s. A case stopped by the watchdog/heap guard counts as a violation (does not return). Exhaustive over the cube (N=4 quick, N=7 thorough) plus a seed-chosen sample through source text.",
+   note="Trusted: refSlice (transcription of the statement's rule, equal to Python's slice.indices). Lengths beyond N and non-int bounds are not explored."),
+ "C17": dict(level="exploration", design="§3 C17",
+   technique="runtime monitoring: independent-oracle monitor (math/big, strconv.ParseFloat, constructed string contents) over generated literal spellings and names run through the real parser and evaluator",
+   text="Generated and tabulated spellings of every documented literal form and names from the documented pattern are parsed and evaluated by the real interpreter; the observed value is compared with an oracle that shares no code with /repo's parser; unrepresentable literals and undefined escapes must end in an error. Fixed boundary/reserved-prefix tables in both tiers, 6 k (quick) / 200 k (thorough) generated cases.",
+   note="Trusted: math/big, strconv.ParseFloat as reference; the list of documented escapes (\\n \\t \\\\ \\\")."),
+ "C18": dict(level="exploration", design="§3 C18",
+   technique="runtime monitoring: algebraic-law monitor evaluated on the real interpreter over all pairs/triples of a user-reachable value pool",
+   text="The laws of the statement (reflexive, symmetric, != negation; trichotomy, unions, <=> antisymmetry, transitivity, max/min/between?/clip agreement) are evaluated by the real interpreter for every pair of ≈110 pool values (every built-in data type, nested containers, Either/wrapped errors, funcs, typed descendants) and every pair/triple of each ordered family; exhaustive over the pool, thorough also over array/object/map wrappings of each value.",
+   note="Trusted: nothing but the interpreter's own booleans; the pool is fixed (values outside it are not explored). Cross-family comparisons (int vs float) are TypeErr by definition and not judged."),
 }
 
 ALL = ["C%02d" % i for i in range(1, 21)]
